@@ -187,6 +187,7 @@ type Engine struct {
 	params      map[string]int
 	knownLabels map[string]bool
 	fixed       []NondetVal // concrete re-execution: nondet values in order
+	loose       []uint64    // translator validation stream
 }
 
 func (e *Engine) allowed(fn *ssa.Function) bool {
@@ -387,6 +388,9 @@ func (e *Engine) runPath(solver *Solver, prefix []Dec) (res PathResult) {
 		nondetSeq: map[string]int{}, unwind: e.cfg.Unwind, instrBudget: e.cfg.InstrBudget,
 		mutexes: map[*Value]*mutexState{}, errGlobals: map[string]Iface{}, onceDone: map[*Value]bool{},
 		poolStash: map[*Value][]Value{}, initDone: map[*ssa.Package]bool{},
+	}
+	if e.loose != nil {
+		x.loose, x.looseOn = e.loose, true
 	}
 	x.res.Reach = map[string]int{}
 	x.res.FuncsHit = map[string]int{}
